@@ -1482,7 +1482,9 @@ class TargetVol(Algo):
 
         # calc covariance matrix
         if self.covar_method == "ledoit-wolf":
-            covar = sklearn.covariance.ledoit_wolf(returns)
+            # ledoit_wolf returns (covariance array, shrinkage) and rejects NaN rows
+            lw = sklearn.covariance.ledoit_wolf(returns.dropna())[0]
+            covar = pd.DataFrame(lw, index=returns.columns, columns=returns.columns)
         elif self.covar_method == "standard":
             covar = returns.cov()
         else:
@@ -1572,7 +1574,9 @@ class PTE_Rebalance(Algo):
 
         # calc covariance matrix
         if self.covar_method == "ledoit-wolf":
-            covar = sklearn.covariance.ledoit_wolf(returns)
+            # ledoit_wolf returns (covariance array, shrinkage) and rejects NaN rows
+            lw = sklearn.covariance.ledoit_wolf(returns.dropna())[0]
+            covar = pd.DataFrame(lw, index=returns.columns, columns=returns.columns)
         elif self.covar_method == "standard":
             covar = returns.cov()
         else:
